@@ -276,6 +276,43 @@ func argLists(cmd command, maxLen int, f func(string)) {
 	rec(nil)
 }
 
+// longLists: argument lists around the candidate limit (types.MaxCandidates = 30) for the two
+// commands whose arguments are a list of choices: 29, 30 and 31 distinct well-formed values, alone
+// and followed by one value of every other shape.
+func longLists(cmd command, f func(string)) {
+	var val func(i int) string
+	switch cmd.name {
+	case "v1voteBP":
+		val = func(i int) string { // identity-multihash peer ids of 39 bytes, all distinct
+			raw := append([]byte{0x00, 0x25, 0x08, 0x02, 0x12, 0x21, 0x02}, bytes.Repeat([]byte{byte(0x40 + i)}, 32)...)
+			id, err := types.IDFromBytes(raw)
+			if err != nil {
+				panic(err)
+			}
+			return js(types.IDB58Encode(id))
+		}
+	case "v1voteDAO":
+		val = func(i int) string {
+			if i == 0 {
+				return js("GASPRICE")
+			}
+			return js(fmt.Sprint(60000000000 + i))
+		}
+	default:
+		return
+	}
+	for _, n := range []int{types.MaxCandidates - 1, types.MaxCandidates, types.MaxCandidates + 1} {
+		var pre []string
+		for i := 0; i < n; i++ {
+			pre = append(pre, val(i))
+		}
+		f("[" + strings.Join(pre, ",") + "]")
+		for _, sh := range shapes {
+			f("[" + strings.Join(append(pre[:n:n], sh), ",") + "]")
+		}
+	}
+}
+
 // malformed payloads that do not depend on a command
 func malformed() []string {
 	return []string{
@@ -358,6 +395,9 @@ func enumerate(tier string, w *world, f func(Case) bool) {
 			argLists(cmd, maxLen, func(l string) { payloads = append(payloads, `{"Name":`+js(cmd.name)+`,"Args":`+l+`}`) })
 			if maxLen > b.plain {
 				payloads = append(payloads, malformedFor(cmd)...)
+			}
+			if rc == cmd.rcpt {
+				longLists(cmd, func(l string) { payloads = append(payloads, `{"Name":`+js(cmd.name)+`,"Args":`+l+`}`) })
 			}
 			for _, pl := range payloads {
 				for _, snd := range govSenders {
